@@ -184,16 +184,16 @@ def gen_column(rng, rows, sel, kind=None):
 
 
 def gen_samples(rng, rows):
-    r = rng.below(10)
+    r = rng.below(30)
     if r == 0:
         return []
-    if r == 1:
+    if r <= 4:
         return list(range(rows))
     n = rng.range(1, rows)
-    if rng.chance(0.35):
+    if rng.chance(0.25):
         n = min(n, rng.range(1, 10))
     s = rng.shuffle(list(range(rows)))[:n]
-    if r in (2, 3):          # unsorted, maybe with duplicates
+    if r <= 10:          # unsorted, maybe with duplicates
         if rng.chance(0.5):
             s += [rng.choice(s) for _ in range(rng.range(1, 3))]
         return s
@@ -214,8 +214,8 @@ def gen_features(rng, maxcols):
                 sizes.append(s); cols_left -= fcols(k, s)
         if sizes:
             groups.append((k, sizes))
-    if not groups:
-        groups = [("F", [1])]
+    if not groups or (not any(k in "FT" for k, _ in groups) and cols_left > 0 and rng.chance(0.8)):
+        groups.insert(rng.below(len(groups) + 1), ("F", [1]))
     return groups
 
 
@@ -314,7 +314,7 @@ def gen(rng, tier):
     for colkind in ["constant", "near", "single", "allmissing", "nans", "offset", "mixedmag", "two", "ints"]:
         for _ in range(20 if tier == "quick" else 150):
             ops.append(fmt(gen_case(rng, rng.choice(["tiny", "small"]), colkind=colkind)))
-    nrand = dict(quick=(700, 900, 60, 200), thorough=(6000, 9000, 800, 1500))[tier]
+    nrand = dict(quick=(600, 900, 150, 200), thorough=(6000, 9000, 1200, 1500))[tier]
     for _ in range(nrand[0]):
         ops.append(fmt(gen_case(rng, "tiny")))
     for _ in range(nrand[1]):
